@@ -5,11 +5,10 @@
 (* planner = RestorePlan.tla).                                               *)
 (*                                                                           *)
 (* The follower is the code AS IT IS, over TXID ranges:                      *)
-(*   PollFiles      = applyNewLTXFiles (replica.go:868) with fillFollowGap   *)
-(*                    (replica.go:1007): the files one poll applies, in order*)
-(*   ResumeCheck    = the crash-recovery branch of Restore (replica.go:627)  *)
-(*   FApply / FPub  = applyLTXFile (replica.go:949: page writes, fsync,      *)
-(*                    truncate, fsync) and WriteTXIDFile (replica.go:1724:   *)
+(*   PollFiles, ResumeCheck = FollowAlg.tla (applyNewLTXFiles with           *)
+(*                    fillFollowGap; the crash-recovery branch of Restore)   *)
+(*   FApply / FPub  = applyLTXFile (replica.go:956: page writes, fsync,      *)
+(*                    truncate, fsync) and WriteTXIDFile (replica.go:1730:   *)
 (*                    tmp, fsync, rename), one step each when Fine = TRUE,   *)
 (*                    with FKill enabled between any two steps.              *)
 (* Disk state of the follower: fx (output database exists), [lo, hi] = every *)
@@ -27,78 +26,19 @@
 (* by one in fillFollowGap; "m_gap0": off by one the other way): the seeded  *)
 (* mutants of tools/checks/c16.py.                                           *)
 (***************************************************************************)
-EXTENDS Replica
+EXTENDS Replica, FollowAlg
 
-CONSTANTS Fine, Variant
+CONSTANTS Fine
 
 VARIABLES fp,      \* "off" | "run"
           fx, lo, hi, fbad, side,
-          ft,      \* lastTXID of the running process (replica.go:807)
+          ft,      \* lastTXID of the running process (replica.go:814)
           pc,      \* "idle" | "apply" | "pub"
           todo,    \* files the current poll still has to apply
           cur,     \* currentTXID of the poll
           step     \* apply: 0 not begun, 1 pages written, 2 synced, 3 truncated; pub: 0 nothing, 1 tmp written + synced
 fvars == <<fp, fx, lo, hi, fbad, side, ft, pc, todo, cur, step>>
 allvars == <<vars, fvars>>
-
-Max2(a, b) == IF a > b THEN a ELSE b
-Min2(a, b) == IF a < b THEN a ELSE b
-MaxTX(files) == IF files = {} THEN 0 ELSE (CHOOSE f \in files : \A g \in files : g.max <= f.max).max
-
------------------------------------------------------------------------------
-(* ---------------- transcription: one poll ---------------- *)
-
-GapTest(mn, c) == IF Variant = "m_gap" THEN mn > c + 2                              \* replica.go:1030
-                  ELSE IF Variant = "m_gap0" THEN mn > c ELSE mn > c + 1
-
-\* the `for itr.Next()` loop of one level in fillFollowGap                          replica.go:1026-1051
-RECURSIVE FillLevel(_, _, _, _, _)
-FillLevel(s, i, c, gapMin, acc) ==
-  IF i > Len(s) THEN [cur |-> c, fs |-> acc, done |-> FALSE]
-  ELSE IF GapTest(s[i].min, c) THEN [cur |-> c, fs |-> acc, done |-> FALSE]         \* break
-  ELSE IF s[i].max <= c THEN FillLevel(s, i + 1, c, gapMin, acc)                    \* already covered
-  ELSE IF s[i].max + 1 >= gapMin THEN [cur |-> s[i].max, fs |-> Append(acc, s[i]), done |-> TRUE]   \* bridged past the gap
-  ELSE FillLevel(s, i + 1, s[i].max, gapMin, Append(acc, s[i]))
-
-\* levels 1..8 (only 1 and 2 hold files here); the snapshot level is never consulted  replica.go:1010
-FillLevels == IF Variant = "fixed" THEN <<1, 2, 9>> ELSE <<1, 2>>
-RECURSIVE FillFrom(_, _, _, _)
-FillFrom(files, k, after, gapMin) ==
-  IF k > Len(FillLevels) THEN [cur |-> after, fs |-> <<>>]
-  ELSE LET r == FillLevel(P!LevelSeq(files, FillLevels[k]), 1, after, gapMin, <<>>) IN
-       IF r.done \/ r.cur > after THEN [cur |-> r.cur, fs |-> r.fs]                 \* replica.go:1049, 1061
-       ELSE FillFrom(files, k + 1, after, gapMin)
-Fill(files, after, gapMin) == FillFrom(files, 1, after, gapMin)
-
-\* the level-0 loop of applyNewLTXFiles                                              replica.go:888-921
-RECURSIVE WalkL0(_, _, _, _, _)
-WalkL0(files, s, i, c, acc) ==
-  IF i > Len(s) THEN [cur |-> c, fs |-> acc]
-  ELSE LET info == s[i] IN
-       IF info.min > c + 1                                                          \* :893
-         THEN LET b == Fill(files, c, info.min)
-                  acc2 == acc \o b.fs
-              IN IF info.max <= b.cur THEN WalkL0(files, s, i + 1, b.cur, acc2)     \* :901
-                 ELSE IF info.min > b.cur + 1 THEN [cur |-> b.cur, fs |-> acc2]     \* :904 wait for the next poll
-                 ELSE WalkL0(files, s, i + 1, info.max, Append(acc2, info))         \* :914
-       ELSE IF info.max <= c THEN WalkL0(files, s, i + 1, c, acc)                   \* :910
-       ELSE WalkL0(files, s, i + 1, info.max, Append(acc, info))
-
-PollFiles(files, after) ==
-  LET s == SelectSeq(P!LevelSeq(files, 0), LAMBDA f : f.min >= after + 1) IN        \* seek: replica.go:872, file/replica_client.go:117
-  IF Len(s) = 0 THEN Fill(files, after, after + 1)                                  \* :930
-  ELSE WalkL0(files, s, 1, after, <<>>)
-
-\* crash recovery: database exists                                                   replica.go:627-665
-ResumeCheck(files, sd) ==
-  IF sd = 0 THEN "nosidecar"                                                        \* :633
-  ELSE IF Variant = "fixed" THEN (IF sd > MaxTX(files) THEN "ahead" ELSE "ok")
-  ELSE LET s == P!LevelSeq(files, 9) IN
-       IF Len(s) = 0 THEN "ok"
-       ELSE LET ls == s[Len(s)] IN                                                  \* last item of the iterator = newest snapshot
-            IF ls.min > sd THEN "behind"                                            \* :655
-            ELSE IF sd > ls.max THEN "ahead"                                        \* :658
-            ELSE "ok"
 
 LatestF == P!Planner(remote, 0, 0)
 -----------------------------------------------------------------------------
@@ -110,7 +50,7 @@ InitF == /\ Init
          /\ fp = "off" /\ fx = FALSE /\ lo = 0 /\ hi = 0 /\ fbad = FALSE /\ side = 0
          /\ ft = 0 /\ pc = "idle" /\ todo = <<>> /\ cur = 0 /\ step = 0
 
-\* fresh restore (output must not exist): plan, decode into .tmp, fsync, rename; then the first sidecar   replica.go:689-798
+\* fresh restore (output must not exist): plan, decode into .tmp, fsync, rename; then the first sidecar   replica.go:689-805
 FStart ==
   /\ fp = "off" /\ ~fx /\ pos > 0 /\ LatestF.err = "none"
   /\ LET m == Last(LatestF.plan).max IN
@@ -140,12 +80,12 @@ FPoll ==
                /\ UNCHANGED <<pc, todo, cur, step>>
   /\ UNCHANGED <<vars, fp, fx>>
 
-\* applyLTXFile, one system-call class per step                                       replica.go:949-1003
+\* applyLTXFile, one system-call class per step                                       replica.go:956-1010
 FApply ==
   /\ fp = "run" /\ pc = "apply" /\ Len(todo) > 0
   /\ LET f == Head(todo) IN
      IF step = 0 /\ f \notin remote
-       THEN \* listed but deleted meanwhile: OpenLTXFile fails, the poll is abandoned without a sidecar   replica.go:914, 849
+       THEN \* listed but deleted meanwhile: OpenLTXFile fails, the poll is abandoned without a sidecar   replica.go:921, 856
             /\ pc' = "idle" /\ todo' = <<>> /\ cur' = 0 /\ step' = 0
             /\ UNCHANGED <<lo, hi, fbad, side, ft>>
        ELSE CASE step = 0 ->                                          \* page writes begin
@@ -162,7 +102,7 @@ FApply ==
                    /\ UNCHANGED <<hi, fbad, side, ft>>
   /\ UNCHANGED <<vars, fp, fx>>
 
-\* WriteTXIDFile: tmp + fsync, rename                                                 replica.go:854, 1724
+\* WriteTXIDFile: tmp + fsync, rename                                                 replica.go:861, 1730
 FPub ==
   /\ fp = "run" /\ pc = "pub"
   /\ IF step = 0 THEN /\ step' = 1 /\ UNCHANGED <<side, ft, pc, cur>>
